@@ -12,7 +12,7 @@ PROPERTY = 'C02'
 
 RULE = ('Typed random past-time STL grammar (no future operator; reuse of already drawn sub-formulas raised to 0.3 so that '
         'duplicate printed names over stateful nodes are common) x random traces of length 1..16 fed one update() per sample with '
-        'exactly the free variables (lanes main, dup, deep, and long: 16-48 samples with bounds up to 20; one trace in five uses very few distinct values so that exact zeros and ties occur). Lane bigint: integer samples of the order of 1.7e18 whose small differences are compared with constants (reference in exact integer arithmetic). Lane giant: once/historically with windows of 200..1100 samples (around 256, 512, 1024), since up to 300, lower bound 0..300, mostly flat traces with isolated extreme samples. Oracle: update_i == R-dt(spec, w)[i] (reference) and == rtamt offline evaluate(w)[i] for every i. '
+        'exactly the free variables (lanes main, dup, deep, and long: 16-48 samples with bounds up to 20; one trace in five uses very few distinct values so that exact zeros and ties occur). Lane timestamps: the updates carry repeated time stamps (two samples at one instant), one stamp for all, irregular floats, epoch seconds or a negative start instead of 0, 1, 2, ... Lane bigint: integer samples of the order of 1.7e18 whose small differences are compared with constants (reference in exact integer arithmetic). Lane giant: once/historically with windows of 200..1100 samples (around 256, 512, 1024), since up to 300, lower bound 0..300, mostly flat traces with isolated extreme samples. Oracle: update_i == R-dt(spec, w)[i] (reference) and == rtamt offline evaluate(w)[i] for every i. '
         'Non-trivial = formula has a stateful operator (prev, s_prev, rise, fall, once, historically, since, bounded or not) and '
         'n >= 2; distinct = distinct (formula text, trace) digests.')
 
@@ -82,7 +82,10 @@ def check(case):
     if not used:
         return DISCARD('no-variable', labels)
     feed = [v for v in vs if v in used]
-    on = run_dt_on(text, feed, {v: tr[v] for v in feed})
+    tcol = case.get('time')
+    if tcol is not None:
+        labels = labels + ['time-stamps:' + case.get('time_kind', 'given')]
+    on = run_dt_on(text, feed, {v: tr[v] for v in feed}, time=tcol)
     stateful = [o for o in F.ops(f) if o in F.STATEFUL_ONLINE]
     nontrivial = bool(stateful) and n >= 2
     if stateful:
@@ -92,7 +95,7 @@ def check(case):
     got = on[1]
     tol = needs_tolerance(f)
     bad_ref = [i for i in range(n) if not same(got[i], ref[i], tol)]
-    off = run_dt_off(text, feed, {v: tr[v] for v in feed})
+    off = run_dt_off(text, feed, {v: tr[v] for v in feed}, time=tcol)
     if off[0] != 'ok':
         return DISCARD('offline-exception(C01/C17)', labels)
     offv = [p[1] for p in off[1]]
@@ -102,9 +105,37 @@ def check(case):
     bad_off = [i for i in range(n) if not same(got[i], offv[i], tol)]
     if bad_ref or bad_off:
         key = 'mismatch:' + attribute(f, feed, tr, n)
-        return FAIL(key, 'spec: %s\ntrace: %s\nonline updates: %s\noffline:        %s\nreference:      %s\nfirst differing step: %d' % (
+        return FAIL(key, ('' if tcol is None else 'time stamps of the updates: %s\n' % (tcol,)) + 'spec: %s\ntrace: %s\nonline updates: %s\noffline:        %s\nreference:      %s\nfirst differing step: %d' % (
             text, {v: tr[v] for v in feed}, fmt_vals(got), fmt_vals(offv), fmt_vals(ref), (bad_ref or bad_off)[0]), labels)
     return PASS(nontrivial, labels)
+
+
+@st.composite
+def strat_timestamps_(draw, tier):
+    """The updates carry time stamps other than 0, 1, 2, ...: repeated stamps (two samples at one instant), one stamp for the whole
+    trace, irregular floats, seconds since the epoch, a negative start. The values do not depend on them."""
+    c = draw(dt_cases(_profile(tier), max_n=12, min_n=2))
+    n = len(next(iter(c['trace'].values())))
+    kind = draw(st.sampled_from(['repeated', 'repeated', 'constant', 'irregular', 'epoch', 'negative']))
+    if kind == 'repeated':
+        t, col = draw(st.sampled_from([0, 3])), []
+        for _ in range(n):
+            col.append(t)
+            t += draw(st.sampled_from([0, 0, 1, 1, 2]))
+    elif kind == 'constant':
+        col = [draw(st.sampled_from([0, 5, 2.5]))] * n
+    elif kind == 'irregular':
+        t, col = 0.0, []
+        for _ in range(n):
+            col.append(t)
+            t += draw(st.sampled_from([0.25, 1.0, 1.0, 1.5, 10.0]))
+    elif kind == 'epoch':
+        col = [1700000000 + i for i in range(n)]
+    else:
+        col = [-5 + i for i in range(n)]
+    c['time'] = col
+    c['time_kind'] = kind
+    return c
 
 
 def strat_long(tier):
@@ -179,6 +210,7 @@ LANES = [
     Lane('near_twins', lambda tier: strat_near_twins_(tier), check, 2000, 30000, std_candidates),
     Lane('floats', strat_floats, check, 1000, 15000, std_candidates),
     Lane('long', strat_long, check, 300, 5000, std_candidates),
+    Lane('timestamps', lambda tier: strat_timestamps_(tier), check, 2000, 20000, std_candidates),
     Lane('main', strat_main, check, 5000, 60000, std_candidates),
     Lane('dup', strat_dup, check, 3000, 30000, std_candidates),
     Lane('deep', strat_deep, check, 1500, 20000, std_candidates),
